@@ -25,7 +25,7 @@ CONSTANTS Docs,      \* documents: sequences of elements (Markdown.tla's element
           Cache      \* "pure" | "writeback"
 
 NoExpand(d) == [els |-> <<>>, off |-> 0, mx |-> 6, meta |-> FALSE]
-M == INSTANCE Markdown WITH Cases <- {}, Expand <- NoExpand, Esc <- "escape", Header <- "first", Merge <- "grid", Sep <- "each", Dedup <- "none",
+M == INSTANCE Markdown WITH Cases <- {}, Expand <- NoExpand, Esc <- "escape", Header <- "first", Merge <- "grid", Sep <- "each", Dedup <- "none", Width <- "widest",
                             cas <- 0, pc <- 0, out <- <<>>, done <- TRUE
 
 Modes == {"none", "explicit", "standard", "aggressive"}
